@@ -44,12 +44,63 @@ void RecLogFinalLinks(pre::BasicValuePresolver &bvp, RecState &st) {
 }
 }  // namespace mp
 
+// ---- C19 extension: the REAL auto-link scope events (env RECSOLVER_SCOPES=<file>).
+// AutoLinkScope<ModelConverter> and the converters call SetAutoLinkSource / TurnOffAutoLinking on the final CRTP class,
+// so a final class that hides these two (non-virtual) members sees every scope opening and every switch-off together
+// with the targets FlatConverter::AutoLink has collected so far; the base members do the work unchanged.
+// The sizes of all value nodes at scope opening tell which targets existed before the scope (reused) and which were
+// created inside it.  ValuePresolverImpl::val_nodes_ is read through the explicit-instantiation idiom.
+namespace recpriv {
+struct NodesTag { typedef std::unordered_set<mp::pre::ValueNode *> mp::pre::ValuePresolverImpl::*type; friend type get(NodesTag); };
+template struct Rob<NodesTag, &mp::pre::ValuePresolverImpl::val_nodes_>;
+}
+namespace mp {
+class RecFlatCvt : public MIPFlatConverter<RecFlatCvt, RecModelAPI, FlatModel<> > {
+  using Base = MIPFlatConverter<RecFlatCvt, RecModelAPI, FlatModel<> >;
+  FILE *f_ = nullptr;
+  bool tried_ = false;
+  FILE *out() {
+    if (!tried_) { tried_ = true; if (const char *fn = std::getenv("RECSOLVER_SCOPES")) f_ = std::fopen(fn, "w"); }
+    return f_;
+  }
+  static std::string R(const pre::NodeRange &nr) {
+    if (!nr.IsValid()) return "null";
+    auto ir = nr.GetIndexRange();
+    return "[" + rec::str(nr.GetValueNode()->GetName()) + "," + std::to_string(ir.beg_) + "," + std::to_string(ir.end_ - 1) + "]";
+  }
+public:
+  RecFlatCvt(Env &e) : Base(e) {}
+  ~RecFlatCvt() { if (f_) std::fclose(f_); }
+  void SetAutoLinkSource(pre::NodeRange nr) {
+    if (FILE *f = out()) {
+      std::string sz = "{";
+      auto &nodes = static_cast<pre::ValuePresolverImpl &>(this->GetValuePresolver()).*get(recpriv::NodesTag());
+      bool first = true;
+      for (auto *pn : nodes) { if (!first) sz += ","; first = false; sz += rec::str(pn->GetName()) + ":" + std::to_string(pn->Size()); }
+      std::fprintf(f, "{\"ev\":\"open\",\"already_open\":%d,\"src\":%s,\"sizes\":%s}}\n", (int)this->DoingAutoLinking(), R(nr).c_str(), sz.c_str());
+      std::fflush(f);
+    }
+    Base::SetAutoLinkSource(nr);
+  }
+  void TurnOffAutoLinking() {
+    if (FILE *f = out()) {
+      std::string t = "[";
+      const auto &tg = this->GetAutoLinkTargets();
+      for (size_t i = 0; i < tg.size(); ++i) { if (i) t += ","; t += R(tg[i]); }
+      std::fprintf(f, "{\"ev\":\"off\",\"src\":%s,\"targets\":%s]}\n", this->DoingAutoLinking() ? R(this->GetAutoLinkSource()).c_str() : "null", t.c_str());
+      std::fflush(f);
+    }
+    Base::TurnOffAutoLinking();
+  }
+};
+}  // namespace mp
+
 namespace mp {
 std::unique_ptr<BasicModelManager>
 CreateRecModelMgr(RecCommon &cc, Env &e, pre::BasicValuePresolver *&pPre) {
   // same steps as CreateModelMgrWithFlatConverter<RecModelAPI, MIPFlatConverter>(cc, e, pPre),
   // keeping the converter pointer so that C04 can log the range constraints behind Range2Slk entries
-  using SolverFlatCvt = FlatCvtImpl<MIPFlatConverter, RecModelAPI>;
+  using SolverFlatCvt = RecFlatCvt;      // = FlatCvtImpl<MIPFlatConverter, RecModelAPI> + observation of the auto-link scope events
   using SolverProblemFlattener = mp::ProblemFltImpl<mp::ProblemFlattener, mp::Problem, SolverFlatCvt>;
   auto pcvt = new SolverProblemFlattener(e);
   auto res = CreateModelManagerWithStdBuilder(std::unique_ptr<BasicConverter<mp::Problem> >{pcvt});
